@@ -5,9 +5,11 @@ PROVED here for every input (unbounded): least-ness and monotonicity of both mon
 domain guards of Exp2 / LogBase2 / CustomBaseLog / Pow / PowApprox, exactness of Exp2 on integer
 exponents and its integer/fraction split, post-condition and bounds of both binary searches and the
 meaning of `ErrTolerance.Compare = 0`.
-NOT PROVED (stated below as comments, decided only by the `math` engine's 700-bit oracle — DESIGN §7):
-the continuum bounds `exp2_rel_error` (relative 10^-18 of the rational approximation on [0,1]),
-`log2_abs_error` (10^-32) and `pow_precision`; `sigFigRound` half-unit bound.
+PROVED in the companion files: `Props/C13SigFig.lean` (SigFigRound: half-unit bound, grid form, idempotence,
+monotonicity, success condition), `Props/C13Log.lean` (LogBase2 within 89·10^-36 of log₂, monotone, total; Ln,
+TickLog, CustomBaseLog), `Props/C13Exp2.lean` (Exp2 within relative 10^-21 on its whole domain: rounding analysis
+plus a kernel-checked certificate for the rational approximant).
+NOT PROVED (decided only by the `math` engine's 700-bit oracle): `pow_precision` (false in part: F9, F10).
 -/
 import OsmoVerif.Model.Math
 import OsmoVerif.Proofs.NumLemmas
